@@ -130,6 +130,7 @@ def c07(tier, seed):
     w = n(tier, 200, 3000)
     runs = [dict(cfg=c, traces=w, drain=True, notime=True, preds=C07_PREDS) for c in ("pdata", "pdata21", "pdatanat", "pdatatcp")]
     runs.append(dict(cfg="pdata", traces=n(tier, 100, 1500), preds=C07_PREDS))
+    runs[0]["scheds"] = ["c07_reader_falls_behind"]
     plan = {"runs": runs, "mc": [("pdata", ["DataOnlyOnValid", "SelListed"], None)], "assumptions": SESSION_ASSUME + [
         "payload sizes 5..8192 bytes; the application reader runs concurrently and is drained at every step"]}
     return session.run_property("C07", tier, seed, plan)
